@@ -93,33 +93,10 @@ Theorem C10_socks_linear : forall r s chunk, sinv s -> bytes_ok chunk ->
 Proof. exact s_feed_linear. Qed.
 Print Assumptions C10_socks_linear.
 
-(* REFUTED on the code as it is: "no exception leaves data_received".  The SOCKS5 greeting 05 00 (no
-   authentication methods) closes the forwarder, the loop carries on and the next handler call fails its
-   assert: AssertionError reaches the transport / event loop. *)
-Theorem C10_socks_no_escape_refuted :
-  exists chunks n, Forall bytes_ok chunks /\ s_run true false socks_init chunks 0 = LRaised n.
-Proof.
-  exists [[5; 0]], 3. split; [repeat constructor; unfold byte; lia|exact socks_escape].
-Qed.
-Print Assumptions C10_socks_no_escape_refuted.
-
-(* REFUTED with asserts compiled out (python -O): the same two bytes lead to a state that the loop body maps
-   to itself; the loop never ends, whatever the fuel. *)
-Theorem C10_socks_spin_refuted :
-  exists s, s_iter false false (s_buf socks_init [5; 0]) = ICont (s_set (s_buf socks_init []) H5Auth 0) /\
-            s_iter false false (s_set (s_buf socks_init []) H5Auth 0) = ICont s /\
-            s_iter false false s = ICont s /\
-            forall fuel it, s_loop false false fuel s it = LFuel.
-Proof.
-  exists spin_state. destruct socks_spin_reached as [A B].
-  split; [exact A|split; [exact B|split; [exact socks_spin_iter|intros; apply socks_spin]]].
-Qed.
-Print Assumptions C10_socks_spin_refuted.
-
-(* the proposed repair (close() also clears _recv_handler): for every sequence of chunks, with or without
-   asserts, no exception escapes, the loop always ends, and the total number of iterations is at most
-   2*bytes + chunks + 3. *)
-Theorem C10_socks_repaired_clean : forall a chunks, Forall bytes_ok chunks ->
+(* the forwarder as it is (close() clears _recv_handler, fix 7ae04cf): for every sequence of chunks, with or
+   without asserts, no exception leaves data_received, the loop always ends, and the total number of
+   iterations is at most 2*bytes + chunks + 3. *)
+Theorem C10_socks_clean : forall a chunks, Forall bytes_ok chunks ->
   match s_run a true socks_init chunks 0 with
   | LDone s' tot => 0 <= tot <= 2 * blen (concat chunks) + Z.of_nat (length chunks) + 3
   | LRaised _ | LFuel => False
@@ -130,7 +107,30 @@ Proof.
   destruct (s_run a true socks_init chunks 0) as [s' tot| |]; try contradiction.
   destruct R as (_ & _ & R). pose proof (s_mu_nonneg s'). change (s_mu socks_init) with 1 in R. lia.
 Qed.
-Print Assumptions C10_socks_repaired_clean.
+Print Assumptions C10_socks_clean.
+
+(* regression witness: with the handler left in place by close() (the code before 7ae04cf) the SOCKS5 greeting
+   05 00 (no authentication methods) closes the forwarder, the loop carries on and the next handler call
+   fails its assert: AssertionError reaches the transport / event loop. *)
+Theorem C10_socks_regress_escape :
+  exists chunks n, Forall bytes_ok chunks /\ s_run true false socks_init chunks 0 = LRaised n.
+Proof.
+  exists [[5; 0]], 3. split; [repeat constructor; unfold byte; lia|exact socks_escape].
+Qed.
+Print Assumptions C10_socks_regress_escape.
+
+(* regression witness, asserts compiled out (python -O): the same two bytes lead to a state that the loop body
+   maps to itself; the loop never ends, whatever the fuel. *)
+Theorem C10_socks_regress_spin :
+  exists s, s_iter false false (s_buf socks_init [5; 0]) = ICont (s_set (s_buf socks_init []) H5Auth 0) /\
+            s_iter false false (s_set (s_buf socks_init []) H5Auth 0) = ICont s /\
+            s_iter false false s = ICont s /\
+            forall fuel it, s_loop false false fuel s it = LFuel.
+Proof.
+  exists spin_state. destruct socks_spin_reached as [A B].
+  split; [exact A|split; [exact B|split; [exact socks_spin_iter|intros; apply socks_spin]]].
+Qed.
+Print Assumptions C10_socks_regress_spin.
 
 (* ---- identification string / banner (connection.py _recv_version) ---- *)
 
@@ -238,7 +238,7 @@ Proof. reflexivity. Qed.
 Example ex_get_string_short : get_string (mkPk [0; 0; 0; 9; 1] 0) = Err (mkPk [0; 0; 0; 9; 1] 4).
 Proof. reflexivity. Qed.
 Example ex_socks5 :
-  s_run true false socks_init [[5; 1; 0]; [5; 1; 0; 3; 3; 97; 98; 99; 0; 80]] 0
+  s_run true true socks_init [[5; 1; 0]; [5; 1; 0; 3; 3; 97; 98; 99; 0; 80]] 0
   = LDone (mkSocks HNone 2 [] true (HostName [97; 98; 99]) 80 1 [[5; 0]; [5; 0; 0; 1; 0; 0; 0; 0; 0; 0]]
                    (Some (HostName [97; 98; 99], 80))) 7.
 Proof. vm_compute. reflexivity. Qed.
